@@ -37,6 +37,11 @@ func (k Keeper) GetLatestPriceFromAssetAndSource(ctx sdk.Context, asset, source 
 	for ; iterator.Valid(); iterator.Next() {
 		var val types.Price
 		k.cdc.MustUnmarshal(iterator.Value(), &val)
+		// asset and source are concatenated in the key without a delimiter, so the prefix also
+		// matches other assets/sources that merely start with the same characters: skip them
+		if val.Asset != asset || val.Source != source {
+			continue
+		}
 		return val, true
 	}
 
@@ -51,6 +56,10 @@ func (k Keeper) GetLatestPriceFromAnySource(ctx sdk.Context, asset string) (val 
 	for ; iterator.Valid(); iterator.Next() {
 		var val types.Price
 		k.cdc.MustUnmarshal(iterator.Value(), &val)
+		// the prefix also matches assets whose name merely starts with this asset's name: skip them
+		if val.Asset != asset {
+			continue
+		}
 		return val, true
 	}
 
